@@ -40,8 +40,7 @@ func run(c *lib.Ctx) error {
 	}
 	c.Set("rule", "G: a behaviour is (world, sequence of top-level uses); distinct by (module files, operations). V: one case per top-level use; distinct by (world, operation prefix); operations that evaluate no module body (cache hits, missing modules) are not counted as non-trivial")
 	bounds := []mcBound{
-		{"gen", 2, 1, 2, `{"no", "end"}`, `{FALSE}`, 2},
-		{"curated", 0, 0, 2, `{"no"}`, `{FALSE}`, 2},
+		{"both", 2, 1, 2, `{"no", "end"}`, `{FALSE}`, 2},
 	}
 	if c.Thorough() {
 		bounds = []mcBound{
@@ -54,7 +53,7 @@ func run(c *lib.Ctx) error {
 	for _, b := range bounds {
 		bs = append(bs, strings.ReplaceAll(string(b.cfg()[:strings.IndexByte(string(b.cfg()), '\n')]), `"`, "'"))
 	}
-	c.Set("bounds", map[string]any{"exhaustive": bs, "random_worlds": c.Pick(150, 3000), "random_modules": "1..6", "random_ops": "1..8"})
+	c.Set("bounds", map[string]any{"exhaustive": bs, "random_worlds": c.Pick(100, 3000), "random_modules": "1..6", "random_ops": "1..8"})
 	seen := map[string]bool{}
 	for _, b := range bounds {
 		r, err := c.TLC(fmt.Sprintf("MCModules(%s,%d,%d,%d)", b.family, b.nmods, b.maxImp, b.maxOps), lib.TLCRun{Dir: dir, Module: "MCModules", Workers: 6, Timeout: 13 * time.Minute, HeapGB: 8,
@@ -81,6 +80,9 @@ func run(c *lib.Ctx) error {
 		if len(behs) == 0 {
 			return lib.Infra("TLC emitted no behaviour for %+v", b)
 		}
+		if os.Getenv("VERIF_CORRUPT") == "g" { // development-time vacuity guard
+			behs[len(behs)/2].Ops[0].Evals[0] += 7
+		}
 		c.Logf("model %s: %d distinct states, %d transitions, %d behaviours", b.family, r.Distinct, r.Generated, len(behs))
 		for i, beh := range behs {
 			replayBehaviour(c, beh)
@@ -93,7 +95,7 @@ func run(c *lib.Ctx) error {
 	c.Set("exhaustive", true)
 
 	// ---- V
-	n := c.Pick(150, 3000)
+	n := c.Pick(100, 3000)
 	rng := newRand(c.Seed)
 	groups := make([][]Case, n)
 	for i := 0; i < n; i++ {
@@ -101,6 +103,10 @@ func run(c *lib.Ctx) error {
 		groups[i] = record(c, w, ops)
 	}
 	c.Sample(groups[0][:min(3, len(groups[0]))])
+	if os.Getenv("VERIF_CORRUPT") == "v" {
+		e := &groups[1][len(groups[1])-1]
+		e.Evals[0] += 7
+	}
 	if err := judge(c, dir, groups); err != nil {
 		return err
 	}
